@@ -159,12 +159,26 @@ func c26Listing() (map[string]string, map[string]os.FileMode) {
 	return desc, modes
 }
 
+// c26Esc prints a name / path as is when it is printable ASCII, else as hex:<bytes>.
+func c26Esc(s string) string {
+	for i := 0; i < len(s); i++ {
+		if s[i] < 0x21 || s[i] > 0x7e {
+			return "hex:" + hexTok([]byte(s))
+		}
+	}
+	return s
+}
+
 func c26Join(paths []string) string {
 	if len(paths) == 0 {
 		return "-"
 	}
-	sort.Strings(paths)
-	return strings.Join(paths, ",")
+	out := make([]string, len(paths))
+	for i, p := range paths {
+		out[i] = c26Esc(p)
+	}
+	sort.Strings(out)
+	return strings.Join(out, ",")
 }
 
 func c26Class(msg string) string {
@@ -251,7 +265,7 @@ func c26Run(line string) string {
 		if isDir {
 			io.Copy(io.Discard, r)
 			phys, _ := filepath.EvalSymlinks(filepath.Clean(path))
-			return "ok dir:" + rel(phys)
+			return "ok dir:" + c26Esc(rel(phys))
 		}
 		b, _ := io.ReadAll(r)
 		if c, ok := r.(io.Closer); ok {
@@ -277,7 +291,7 @@ func c26Run(line string) string {
 		if who == "?" && len(hits) > 0 {
 			who = hits[0]
 		}
-		return "ok file:" + who + ":" + tok
+		return "ok file:" + c26Esc(who) + ":" + tok
 	case "ul":
 		before, _ := c26Listing()
 		meta := &filetransfer.TransferMetadata{Path: path, Mode: 0o644, Size: -1}
@@ -323,7 +337,7 @@ func c26Run(line string) string {
 			}
 		}
 		b2s := map[bool]string{false: "0", true: "1"}
-		return fmt.Sprintf("ok sym=%s dir=%s target=%s", b2s[e.IsSymlink], b2s[e.IsDir], t)
+		return fmt.Sprintf("ok sym=%s dir=%s target=%s", b2s[e.IsSymlink], b2s[e.IsDir], c26Esc(t))
 	case "cm":
 		_, before := c26Listing()
 		resp := c26H.Browse(&filetransfer.BrowseRequest{Action: "chmod", Path: path, Mode: "0711"})
